@@ -68,19 +68,20 @@ var spellings = []spelling{
 var quickSpellings = map[string]bool{"raw": true, "enc-all": true, "enc-slash": true, "double-enc": true, "dot-noise": true, "backslash": true, "nul": true, "fullwidth": true, "ctl-inside": true}
 
 type world struct {
-	c        *ev.Ctx
-	tmpl     string // template jail
-	jail     string
-	store    *gw.Store
-	g        *gw.GW
-	owner    *s3c.Client
-	root     *s3c.Client
-	canaries map[string]string // content -> where
-	uploadID string
-	vid      string // version id of named/seed/versioned (older version)
-	mu       sync.Mutex
-	name     string
-	cfg      gw.Config
+	c                          *ev.Ctx
+	tmpl                       string // template jail
+	jail                       string
+	store                      *gw.Store
+	g                          *gw.GW
+	owner                      *s3c.Client
+	root                       *s3c.Client
+	canaries                   map[string]string // content -> where
+	uploadID                   string
+	parentUploadID, parentETag string // open upload on the key "seed"
+	vid                        string // version id of named/seed/versioned (older version)
+	mu                         sync.Mutex
+	name                       string
+	cfg                        gw.Config
 }
 
 func plant(dir, label string, canaries map[string]string) {
@@ -168,6 +169,12 @@ func build(c *ev.Ctx, name string, cfg gw.Config) (*world, error) {
 	}
 	w.uploadID = id
 	root.UploadPart(named, "mpu/key", id, 1, []byte("PARTDATA-named"))
+	// an upload on the key "seed", which other objects have as their directory (seed/a.txt, ...)
+	if pid, pr := root.CreateMPU(named, "seed"); pr.OK() {
+		if up := root.UploadPart(named, "seed", pid, 1, []byte("PARTDATA-parent")); up.OK() {
+			w.parentUploadID, w.parentETag = pid, strings.Trim(up.Header.Get("Etag"), `"`)
+		}
+	}
 	vid, r2 := root.CreateMPU(victim, "mpu/vkey")
 	if r2.OK() {
 		root.UploadPart(victim, "mpu/vkey", vid, 1, []byte("CANARY-victim-part-6d6d"))
@@ -293,6 +300,15 @@ func (w *world) attempts(sp spelling, depth int) []attempt {
 		add("key-empty-segment", "PutObject", pathReq("PUT", nb+"seed//a.txt", "", []byte("REPLACED-BY-C04")), named, "seed//a.txt", false)
 		add("key-empty-segment", "DeleteObject", pathReq("DELETE", nb+"seed//b.txt", "", nil), named, "seed//b.txt", false)
 		add("key-empty-segment", "GetObject", pathReq("GET", nb+"seed//a.txt", "", nil), named, "seed//a.txt", true)
+	}
+	// a key that other objects have as their directory: completing an upload onto it (the one operation that puts a
+	// file there without the "is a directory" test of PutObject) may fail or not - the objects below it stay
+	if depth == 1 && sp.name == "raw" && w.parentUploadID != "" {
+		cb := s3c.CompleteXML([]s3c.Part{{N: 1, ETag: w.parentETag}})
+		add("key-is-directory-of-others", "CompleteMultipartUpload", &s3c.Req{Method: "POST", Path: nb + "seed", Query: s3c.Q("uploadId", w.parentUploadID), Body: cb}, named, "seed", false)
+		add("key-is-directory-of-others", "CopyObject-dest", &s3c.Req{Method: "PUT", Path: nb + "seed", Header: s3c.H{{"X-Amz-Copy-Source", named + "/top.txt"}}}, named, "seed", false)
+		add("key-is-directory-of-others", "PutObject", &s3c.Req{Method: "PUT", Path: nb + "seed", Body: []byte("REPLACED-BY-C04")}, named, "seed", false)
+		add("key-is-directory-of-others", "DeleteObject", &s3c.Req{Method: "DELETE", Path: nb + "seed"}, named, "seed", false)
 	}
 	// --- bucket in path
 	bw := "/" + upW
